@@ -119,29 +119,10 @@ def rand_case(rng, cid, depth=2):
     return {"id": cid, "kind": kind, "toks": toks, "ctx": rand_ctx(rng)}
 
 
-def oracle(vf, cases, workdir, max_skips=200):
-    """Expected values from TLC (spec/Oracle_UDQ.tla).  A case whose exact
-    rational value overflows TLC's 32-bit integers is dropped (counted)."""
-    import os
-    expected, skipped = {}, 0
-    remaining = list(cases)
-    path = os.path.join(workdir, "oracle_cases.ndjson")
-    while remaining:
-        vf.write_ndjson(path, remaining)
-        r = vf.tlc("Oracle_UDQ", "Oracle_UDQ.cfg", workers=1, coverage=False, env={"CASES": path}, timeout=1500)
-        for g in r.gen:
-            expected[g["id"]] = g["exp"]
-        done = len({g["id"] for g in r.gen})      # TLC may evaluate (and print) an action twice
-        if r.rc == 0 and not r.error:
-            break
-        if r.error and "Overflow" in r.out and done < len(remaining):
-            skipped += 1
-            if skipped > max_skips:
-                raise vf.ToolingError("oracle: too many overflowing cases")
-            remaining = remaining[done + 1:]
-            continue
-        raise vf.ToolingError("oracle failed: %s" % (r.error or "")[:800])
-    return expected, skipped
+def oracle(vf, cases, workdir):
+    """Expected values from TLC (spec/Oracle_UDQ.tla); cases whose exact value overflows TLC's integers are dropped."""
+    exp, skipped, st = vf.tlc_oracle("Oracle_UDQ", "Oracle_UDQ.cfg", cases, workdir)
+    return {k: v["exp"] for k, v in exp.items()}, skipped, st
 
 
 # ---------------------------------------------------------------- histories
@@ -262,23 +243,6 @@ def rand_history(rng, cid, nsteps=4):
 
 
 def oracle_hist(vf, cases, workdir):
-    import os
-    path = os.path.join(workdir, "oracle_hist.ndjson")
-    expected, skipped = {}, 0
-    remaining = [{"id": c["id"], "steps": c["steps"]} for c in cases]
-    while remaining:
-        vf.write_ndjson(path, remaining)
-        r = vf.tlc("Oracle_UDQHist", "Oracle_UDQHist.cfg", workers=1, coverage=False, env={"CASES": path}, timeout=1500)
-        for g in r.gen:
-            expected[g["id"]] = g["exp"]
-        done = len({g["id"] for g in r.gen})
-        if r.rc == 0 and not r.error:
-            break
-        if r.error and "Overflow" in r.out and done < len(remaining):
-            skipped += 1
-            if skipped > 300:
-                raise vf.ToolingError("oracle: too many overflowing histories")
-            remaining = remaining[done + 1:]
-            continue
-        raise vf.ToolingError("history oracle failed: %s" % (r.error or "")[:800])
-    return expected, skipped
+    exp, skipped, st = vf.tlc_oracle("Oracle_UDQHist", "Oracle_UDQHist.cfg",
+                                     [{"id": c["id"], "steps": c["steps"]} for c in cases], workdir)
+    return {k: v["exp"] for k, v in exp.items()}, skipped, st
